@@ -468,6 +468,12 @@ class Ctx:
     def finish(self, level="proof"):
         os.makedirs(EVIDENCE, exist_ok=True)
         cov = dict(self.coverage)
+        # a run that explored nothing must not pass silently
+        if not self.violations:
+            if not cov.get("evaluations"):
+                raise Broken("the run evaluated no case at all (coverage.evaluations = %r)" % cov.get("evaluations"))
+            if "distinct_nontrivial" in cov and not cov["distinct_nontrivial"]:
+                raise Broken("no non-trivial case was produced (coverage.distinct_nontrivial = 0)")
         ev = {
             "property_id": self.prop,
             "tier": self.tier,
